@@ -197,6 +197,13 @@ def key_year(kind, op, t):
     return d.year
 
 
+OVERLAPS = {'America/Los_Angeles': [(2019, 11, 3, 1, 30), (2005, 10, 30, 1, 30), (2020, 11, 1, 1, 5)],
+            'Europe/London': [(2019, 10, 27, 1, 30), (2004, 10, 31, 1, 45)],
+            'Australia/Sydney': [(2019, 4, 7, 2, 30), (2006, 4, 2, 2, 15)],
+            'America/Sao_Paulo': [(2019, 2, 16, 23, 30), (2006, 2, 18, 23, 30)],
+            'Pacific/Auckland': [(2019, 4, 7, 2, 30)]}
+
+
 def gen_histories(rnd, kind, k, zones, n, length):
     hs = []
     for _ in range(n):
@@ -218,6 +225,12 @@ def gen_histories(rnd, kind, k, zones, n, length):
                 jan1 = True
             else:
                 t = calendar.timegm((y, 1, 4, 0, 0, 0)) - EPOCH2000 + rnd.randint(0, 355 * 86400)
+            # local times inside the repeated hour of an autumn change (where more than one offset is stable, so that an answer
+            # seeded by an earlier call could differ from that of a never-used processor)
+            if op == 'odt' and hd['zone'] in OVERLAPS and rnd.random() < 0.35:
+                yy, mo, dd, hh, mi = rnd.choice(OVERLAPS[hd['zone']])
+                t = calendar.timegm((yy, mo, dd, hh, mi, 0)) - EPOCH2000
+                jan1 = False
             if not (-2**31 < t < 2**31 - 86400):
                 continue
             # exact repeats of an earlier argument (same instant again after other calls in between) are common in
